@@ -91,7 +91,7 @@ def gen_single(rng, tier, scale):
     invs.append(mk(rng, reterr=True, big=True, via='deco'))
     invs.append(mk(rng, reterr=True, pick=False))
     invs.append(mk(rng, reterr=True, kill='in_callee'))
-    n_rand = (20 if tier == 'quick' else 1500) * scale
+    n_rand = (20 if tier == 'quick' else 3000) * scale
     for _ in range(n_rand):
         invs.append(random_inv(rng, crash=0.5))
     return [{'invs': [i]} for i in invs]
@@ -124,7 +124,7 @@ def gen_concurrent(rng, tier, scale):
     if tier == 'quick':
         sizes = [2, 2, 3, 3, 4, 5, 6, 8, 8, 2, 4, 7]
     else:
-        sizes = ([2, 3, 4, 5, 6, 8] * 6 + [12, 16, 24, 32, 48, 64, 64, 40]) * 3
+        sizes = ([2, 3, 4, 5, 6, 8] * 6 + [12, 16, 24, 32, 48, 64, 64, 40]) * 5
     sizes = sizes * scale
     for n in sizes:
         crash = rng.choice([0.0, 0.2, 0.35, 0.6])
@@ -267,8 +267,8 @@ def run(tier, seed, replay=None):
     ck.replay_known_findings(still_fails)
     if tier == 'thorough' and replay is None and ck.props_ok:
         rc, out, err, dt = sh(['coqchk', '-silent', '-o', '-Q', '.', 'PV', 'PV.Props.C17'], cwd=COQ, timeout=1500)
-        ck.oblige('coqchk:Props.C17', 'proof', rc == 0 and 'Axioms: <none>' in out,
-                  f'{dt:.0f}s axioms: <none>' if rc == 0 and 'Axioms: <none>' in out else (out + err)[-800:])
+        ok = rc == 0 and 'Axioms: <none>' in (out + err)
+        ck.oblige('coqchk:Props.C17', 'proof', ok, f'{dt:.0f}s axioms: <none>' if ok else f'rc={rc} ' + (out + err)[-800:])
 
     if replay is not None:
         cases = [replay['case']]
